@@ -245,6 +245,18 @@ func (w *world) buildMux(routes []route, table map[string]*request) *httpd.Mux {
 		store.W.WriteHeader(200)
 		r.obs.IDs = append(r.obs.IDs, strings.Clone(store.GetID()))
 	}
+	w.installRelayWith(mux, table, handler)
+	for _, rt := range routes {
+		mux.Handle(rt.path, rt.method, handler)
+	}
+	return mux
+}
+
+func (w *world) installRelay(mux *httpd.Mux, table map[string]*request) {
+	w.installRelayWith(mux, table, w.buildMuxHandler(table))
+}
+
+func (w *world) installRelayWith(mux *httpd.Mux, table map[string]*request, handler httpd.HandlerFunc) {
 	mux.HandleRelay(func(store *httpd.Store) {
 		r := w.reqOf(store, table)
 		r.obs.StatusEntry = store.W.Status
@@ -262,10 +274,6 @@ func (w *world) buildMux(routes []route, table map[string]*request) *httpd.Mux {
 		store.I.HandlerFunc(store)
 	})
 	mux.HandleNoRoute(handler)
-	for _, rt := range routes {
-		mux.Handle(rt.path, rt.method, handler)
-	}
-	return mux
 }
 
 func (w *world) serve(mux *httpd.Mux, r *request) {
@@ -361,6 +369,11 @@ func (w *world) mainC05() {
 		}
 		wg.Wait()
 		// further routes registered between requests, at a quiescent point
+		if b+1 < batches && ch("cfg.rehandle", 3) == 0 {
+			// the relay and no-route handlers may be installed again, too
+			simrt.Probe("relay_and_noroute_reinstalled")
+			w.installRelay(mux, w.byHdr)
+		}
 		if b+1 < batches {
 			k := 1 + ch("cfg.more_routes", 2)
 			for i := 0; i < k && next < len(perm); i++ {
